@@ -298,13 +298,13 @@ def lineCommentLoop : Nat → Scan → SR
   | n+1, s =>
     if (s.next).2 == some '\n' || (s.next).2 == none then .ok (s.next).1 else lineCommentLoop n (s.next).1
 
-/-- `while not s.accept_prefix("*/"): if s.next() is None: raise` -/
-def blockCommentLoop : Nat → Scan → SR
+/-- `while not s.accept_prefix("*/"): if s.next() is None: raise`; `posErr` is the error built when the comment was opened -/
+def blockCommentLoop (posErr : Err) : Nat → Scan → SR
   | 0, s => .error (.outOfFuel, s)
   | n+1, s =>
     if (s.acceptPrefix ['*', '/']).2 then .ok (s.acceptPrefix ['*', '/']).1
-    else if (s.next).2 == none then .error ((s.next).1.err "Unterminated Comment", (s.next).1)
-    else blockCommentLoop n (s.next).1
+    else if (s.next).2 == none then .error (posErr, (s.next).1)
+    else blockCommentLoop posErr n (s.next).1
 
 /-- `lex_initial` -/
 def lexInitial (cfg : ScanCfg) (s : Scan) : SR := do
@@ -369,7 +369,7 @@ def lexInitial (cfg : ScanCfg) (s : Scan) : SR := do
   if a then return s1.emit .EQUAL
   let (s1, a) := s.acceptPrefix ['/', '*']
   if a then
-    let s2 ← blockCommentLoop fuel s1
+    let s2 ← blockCommentLoop (s1.err "Unterminated Comment") fuel s1
     return s2.emit .COMMENT
   let (s1, c) := s.next
   if c != none then .error (s1.err ("Invalid Input " ++ s1.slice s1.start s1.input.size), s1) else pure s1
